@@ -208,6 +208,7 @@ def main(tier):
         cs = cases(tier, rng)
         common.import_repo()
         obs = common.pool_map(run_path, cs, initfn=common.import_repo)
+        common.retry_hangs(cs, obs, run_path)      # a watchdog firing under load is re-observed alone, with longer alarms
         verdicts, st = tlc.validate(s, "Trace_LazyList", obs, cfg="Trace_LazyList.cfg", chunk=5000)
     tally = {}
     for (src, path), v, o in zip(cs, verdicts, obs):
